@@ -4,6 +4,7 @@ import base64 as _b64
 import bvsym as sx
 from bvsym import core
 from .envpatch import EnvPatch
+from .common import reset_cookie_jar
 from .common import FakeOs, FakeSock, Obligation, cover, new_ws, quiet_logging
 
 PROPERTY = "C10"
@@ -69,7 +70,7 @@ def q_hdr(hostlen, reslen, header_kind, group="all"):
     (cookie, connection, subprotocols, custom headers) or 'pairs' (every option absent / 1 symbolic char, full product)"""
     quiet_logging()
     import websocket._handshake as HS
-    HS.CookieJar.jar.clear()
+    reset_cookie_jar()
     host = sx.sym_str("host", hostlen)
     _no_crlf(host)
     resource = "/" + sx.sym_str("res", reslen) if reslen else "/"
@@ -140,7 +141,7 @@ def q_hdr(hostlen, reslen, header_kind, group="all"):
     ep = EnvPatch()
     ep.urandom(urandom)
     try:
-        headers, key = HS._get_handshake_headers(resource, url, host, port, options)
+        headers, key = sx.unit(HS, "_get_handshake_headers")(resource, url, host, port, options)
     except (sx.Control, sx.ConcreteFailure, sx.ReplayMismatch):
         raise
     except Exception as e:
@@ -186,7 +187,7 @@ def q_key():
     """the key header is the base64 of exactly the 16 bytes drawn; a second request draws again"""
     quiet_logging()
     import websocket._handshake as HS
-    HS.CookieJar.jar.clear()
+    reset_cookie_jar()
     r1 = sx.sym_bytes("r1_", 16)
     r2 = sx.sym_bytes("r2_", 16)
     pool = [r1, r2]
@@ -200,8 +201,8 @@ def q_key():
     if sx.mode() != "concrete":
         ep.handshake_crypto(b64=lambda d: b64_model(d)[:-1])
     try:
-        h1, k1 = HS._get_handshake_headers("/", "ws://h/", "h", 80, {})
-        h2, k2 = HS._get_handshake_headers("/", "ws://h/", "h", 80, {})
+        h1, k1 = sx.unit(HS, "_get_handshake_headers")("/", "ws://h/", "h", 80, {})
+        h2, k2 = sx.unit(HS, "_get_handshake_headers")("/", "ws://h/", "h", 80, {})
     finally:
         ep.restore()
     sx.require(draws == [16, 16], "each request draws 16 fresh random bytes exactly once")
@@ -248,7 +249,7 @@ def q_wire(scheme, port, with_opts):
     quiet_logging()
     import websocket._handshake as HS
     from websocket._exceptions import WebSocketException
-    HS.CookieJar.jar.clear()
+    reset_cookie_jar()
     host = sx.sym_str("host", 3)
     _no_crlf(host)
     sx.assume(sx.Not(sx.contains(host, ":")))  # the bracketed IPv6 form is Q-hdr's subject
@@ -260,7 +261,7 @@ def q_wire(scheme, port, with_opts):
         c = sx.sym_str("cookie", 2)
         _no_crlf(c)
         opts = {"cookie": c, "subprotocols": ["a", "b"], "header": ["X-A: 1"]}
-        HS.CookieJar.jar["." + host.lower()] = http.cookies.SimpleCookie("s=1")  # a cookie the server set earlier for this host
+        sx.unit(sx.unit(HS, "CookieJar"), "jar")["." + host.lower()] = http.cookies.SimpleCookie("s=1")  # a cookie the server set earlier for this host
     sock = FakeSock(["eof"])
     try:
         HS.handshake(sock, "%s://x/" % scheme, host, port, res, **opts)
@@ -283,7 +284,7 @@ def q_wire(scheme, port, with_opts):
     tail = tail + "\r\n"
     tb = tail.encode()
     sx.require(wire[len(hb) + 24:] == tb, "version, connection, subprotocols, custom headers and cookie (jar cookies first, then the caller's) on the wire, in order")
-    HS.CookieJar.jar.clear()
+    reset_cookie_jar()
     cover("wire")
 
 
@@ -294,7 +295,7 @@ def q_reuse(header_kind):
     import copy
     import http.cookies
     import websocket._handshake as HS
-    HS.CookieJar.jar.clear()
+    reset_cookie_jar()
     host = sx.sym_str("host", 2)
     _no_crlf(host)
     sx.assume(sx.Not(sx.contains(host, ":")))
@@ -312,7 +313,7 @@ def q_reuse(header_kind):
     options = {"header": header, "cookie": cookie, "subprotocols": subs, "origin": "http://o"}
     if header is None:
         del options["header"]
-    HS.CookieJar.jar["." + host.lower()] = http.cookies.SimpleCookie("s=1")
+    sx.unit(sx.unit(HS, "CookieJar"), "jar")["." + host.lower()] = http.cookies.SimpleCookie("s=1")
     snap_header = copy.copy(header)
     snap_subs = list(subs)
     pool = [bytes(range(16)), bytes(range(16, 32)), bytes(range(32, 48))]
@@ -324,12 +325,12 @@ def q_reuse(header_kind):
     ep = EnvPatch()
     ep.urandom(urandom)
     try:
-        h1, k1 = HS._get_handshake_headers("/r", "ws://x/", host, 8080, options)
-        h2, k2 = HS._get_handshake_headers("/r", "ws://x/", host, 8080, options)
-        h3, k3 = HS._get_handshake_headers("/r", "ws://x/", host, 8080, options)
+        h1, k1 = sx.unit(HS, "_get_handshake_headers")("/r", "ws://x/", host, 8080, options)
+        h2, k2 = sx.unit(HS, "_get_handshake_headers")("/r", "ws://x/", host, 8080, options)
+        h3, k3 = sx.unit(HS, "_get_handshake_headers")("/r", "ws://x/", host, 8080, options)
     finally:
         ep.restore()
-        HS.CookieJar.jar.clear()
+        reset_cookie_jar()
     sx.require(draws == [16, 16, 16], "every request draws its own 16 random bytes")
     sx.require(k1 != k2 and k2 != k3, "successive requests carry fresh keys")
 
@@ -412,7 +413,7 @@ def q_url(scheme):
     import simnet
     import websocket
     import websocket._handshake as HS
-    HS.CookieJar.jar.clear()
+    reset_cookie_jar()
     host, host_l = URL_HOSTS[sx.choice("host", len(URL_HOSTS))]
     port = URL_PORTS[sx.choice("port", len(URL_PORTS))]
     path = URL_PATHS[sx.choice("path", len(URL_PATHS))]
@@ -454,7 +455,7 @@ def q_redirect(scheme2, port2, path2):
     import simnet
     import websocket
     import websocket._handshake as HS
-    HS.CookieJar.jar.clear()
+    reset_cookie_jar()
     loc = "%s://b.example%s%s" % (scheme2, port2, path2)
     n = [0]
 
